@@ -147,6 +147,13 @@ CHECKS = {
         "trusted: the tokenizer for token boundaries (selftested), mc/ref/sf_ident.py names model; not demanded: message text, names of unaliased expressions, row order without ORDER BY, distinctness of \"t\" and T",
         "bounded exhaustive enumeration of re-spellings (metamorphic/differential oracle against the all-lower spelling) plus a reference names model",
     ),
+    "C17": (
+        "E1-bfs",
+        "model_checking",
+        "(b) explicit-state BFS with canonical state hashing over sequences of login {shared, :isolated:, path-backed} and query(token, stmt) / requests with missing, unknown, truncated, extended or other-scheme Authorization, up to 3 tokens, depth 4 (quick) / 6 (thorough), against a dict-per-token session model, with the raw-DuckDB ground truth of every session compared after every transition; (a) exhaustive differential of a real uvicorn server driven by the real snowflake.connector against a fresh in-process connection: one group per column type x boundary values (value, NULL, value), every microsecond fraction class and sweeps of consecutive microseconds before/after the epoch, statement kinds (DDL, DML, USE, transactions, SET, SHOW/DESCRIBE, expression forms, the C07 failing statements), row counts 0..1,000,001",
+        "trusted: the real snowflake.connector and uvicorn on a loopback socket; mc/ref/c17_model.py equality functions (selftested); not demanded: server-side bound parameters, description equality where the in-process fake has none, two logins on the same path",
+        "explicit-state model checking of the session machine (BFS, canonical state hashing) plus exhaustive differential enumeration of result shapes against the in-process implementation",
+    ),
 }
 
 NOT_BUILT = "check not built yet in this round (planned per DESIGN.md §3); no claim is made"
